@@ -2,8 +2,8 @@
    of Sem/WfGuard64.v: [rv_compile_asm_wf] (Sem/RVWf.asm_wf cs = None) and [rv_compile_code_small].
    The body predicate is Sem/RVWf.instr_wf (registers x0..x31; ADDI / JALR / LW / SW 12-bit signed immediate; LI any
    64-bit value); a lemma `W (method ...)` for each method of rv_backend; the generic theorem
-   Proof/CodegenForallLinP.v with the bounds 2048 (pairs of a Substitute: `ADDI X1, X1, n`) and 512 (xtors of a type:
-   `ADDI X1, Xt, 4k`); the label theorems of Proof/LabelThms.v.  The back end has no spill slots and no routine
+   Proof/CodegenForallLinP.v with the bounds 2048 (copies of one variable: `ADDI X1, X1, n`; from the capacity, tfp_cap)
+   and 512 (xtors of a type: `ADDI X1, Xt, 4k`; a guard); the label theorems of Proof/LabelThms.v.  The back end has no spill slots and no routine
    wrapper in the instruction list; the offsets that occur are the field offsets 16..72 and 0. *)
 From Coq Require Import List ZArith NArith String Ascii Bool Lia.
 From SCC Require Import Base.Sexp Lang.AxSyn Lang.AxSize Model.ParMoves Model.Backend Model.Linearize Model.LinCheck Model.RV
@@ -242,11 +242,17 @@ Lemma W_r_store to_store remaining lc c lc' : r_store to_store remaining lc = Ok
 Proof. unfold r_store. apply W_store_fields. Qed.
 
 (* ---------- every statement, every program ---------- *)
+(* fewer than 28 positions have a register *)
+Lemma tfp_cap q t : temporary_from_position q = Ok t -> (q < 2 * RV_SUBST_MAX)%N.
+Proof.
+  unfold temporary_from_position, RV_SUBST_MAX. change RESERVED with 4%N. change REGISTER_NUM with 32%N.
+  destruct (N.ltb_spec (q + 4) 32); [intros _; lia|discriminate].
+Qed.
 Definition Lt (l : string) : Prop := True.
 
 Lemma rv_translate_W types S defs lc code lc' :
   sg_types S = types -> xtors_le RV_XTORS_MAX types = true ->
-  forallb (fun d => lin_check S (dctx d) (dbody d) && stmt_immP RV_SUBST_MAX lit64 (dbody d)) defs = true ->
+  forallb (fun d => lin_check S (dctx d) (dbody d) && stmt_immP lit64 (dbody d)) defs = true ->
   translate rv_backend types defs lc = Ok (code, lc') -> W code.
 Proof.
   intros <- XS G H.
@@ -282,6 +288,7 @@ Proof.
   - intros k. exact I.
   - intros l ps _. exact I.
   - intros t xs k _. split; [exact I|intros; exact I].
+  - exact tfp_cap.
   - intros d _. exact I.
 Qed.
 
